@@ -358,6 +358,30 @@ Proof. induction fuel as [|f IH]; intros bs m m' rest H i k Hh; [discriminate|].
   destruct (dec_pair maxvec bs) as [[[[key v]|] r]|]; try discriminate.
   - destruct (insert_pair key v m) as [m1|] eqn:P; [|discriminate]. cbn [pbind] in H. eapply IH; [exact H|]. now apply (proj1 (insert_has _ _ _ _ P)).
   - inversion H; subst. exact Hh. Qed.
+(* BTreeMap::insert then BTreeMap::get on a keyed field (the ELIP-100 / ELIP-102 accessors) *)
+Lemma get_set m i k v : get_key (set_keyed T m i k v) i k = Some v.
+Proof. unfold get_key, set_keyed. destruct (has m i k) eqn:Hh.
+  - assert (F : find (same i k) (replace i k v m) = Some (i, k, v)); [|now rewrite F].
+    unfold has in Hh. induction m as [|x m IH]; [discriminate|]. cbn [existsb] in Hh. cbn [replace map find]. fold (replace i k v m).
+    destruct (same i k x) eqn:S.
+    + unfold same at 1. cbn [slot ekey fst snd]. now rewrite Nat.eqb_refl, bytes_eqb_refl.
+    + rewrite S. cbn [orb] in Hh. now apply IH.
+  - assert (F : find (same i k) (ins (i, k, v) m) = Some (i, k, v)); [|now rewrite F].
+    assert (Se : same i k (i, k, v) = true) by (unfold same; cbn [slot ekey fst snd]; now rewrite Nat.eqb_refl, bytes_eqb_refl).
+    unfold has in Hh. induction m as [|x m IH]; cbn [PsetMaps.ins find]; [now rewrite Se|]. cbn [existsb] in Hh. apply orb_false_iff in Hh as [Sx Hh].
+    destruct (before (i, k, v) x); cbn [find]; [now rewrite Se|]. rewrite Sx. now apply IH. Qed.
+Lemma get_set_other m i k v i' k' : (i', k') <> (i, k) -> get_key (set_keyed T m i k v) i' k' = get_key m i' k'.
+Proof. intros NE. unfold get_key, set_keyed. f_equal.
+  assert (Sn : forall w, same i' k' (i, k, w) = false).
+  { intros w. unfold same. cbn [slot ekey fst snd]. destruct (Nat.eqb_spec i i'); [|reflexivity]. destruct (bytes_eqb_spec k k'); [|reflexivity]. subst. congruence. }
+  destruct (has m i k).
+  - induction m as [|x m IH]; [reflexivity|]. cbn [replace map find]. fold (replace i k v m). destruct (same i k x) eqn:S.
+    + rewrite Sn. unfold same in S. apply andb_true_iff in S as [S1 S2]. apply Nat.eqb_eq in S1. apply bytes_eqb_true in S2.
+      assert (Sx : same i' k' x = false). { unfold same. rewrite S1, S2. destruct (Nat.eqb_spec i i'); [|reflexivity]. destruct (bytes_eqb_spec k k'); [|reflexivity]. subst. congruence. }
+      rewrite Sx. exact IH.
+    + destruct (same i' k' x); [reflexivity|exact IH].
+  - induction m as [|x m IH]; cbn [PsetMaps.ins find]; [now rewrite Sn|]. destruct (before (i, k, v) x); cbn [find]; [now rewrite Sn|]. destruct (same i' k' x); [reflexivity|exact IH]. Qed.
+
 Fixpoint enc_pairs (ps : list rpair) : bytes := match ps with [] => [] | p :: r => enc_pair maxvec p ++ enc_pairs r end.
 Theorem dup_rejected : forall fuel (a : list rpair) key v1 (b : list rpair) v2 tail m i kd r,
   Forall (fits maxvec) a -> fits maxvec (key, v1) -> Forall (fits maxvec) b -> fits maxvec (key, v2) ->
